@@ -101,6 +101,24 @@ def run(ctx: Ctx) -> None:
         groups.append(g)
         _flush(ctx, groups, stats, "generated/mutated")
     _flush(ctx, groups, stats, "generated/mutated", force=True)
+    # ---- 5. pipelines with upgrade offers: the parser reports the offer and hands back the rest of the stream; a
+    #         connection whose handler declines it must go on with the pipelined requests - each exactly once
+    for i in range(ctx.pick(120, 1200)):
+        msgs = G.gen_upgrade_pipeline(rng)
+        data = G.render(G.flatten(msgs))
+        g = H.Group("request", data, H.DEFAULT_LIMITS, src="upgrade-pipeline", label="upgrade offers in a pipeline")
+        g.parse([])
+        g.parse(G.random_cuts(rng, len(data), 2))
+        bounds = G.offsets([("m", G.render(m)) for m in msgs])[1:-1]
+        g.conn(conn_h, [])
+        g.conn(conn_h, bounds)                              # one request per read
+        g.conn(conn_h, G.random_cuts(rng, len(data), 3))
+        if i % 4 == 0:
+            g.conn(conn_h, G.byte_at_a_time(len(data)))
+        conn_done += 1
+        groups.append(g)
+        _flush(ctx, groups, stats, "upgrade pipelines")
+    _flush(ctx, groups, stats, "upgrade pipelines", force=True)
     ctx.extra["clauses_seen"] = stats
     ctx.extra["connection_level_streams"] = conn_done
     ctx.evaluations = ctx.traces
